@@ -101,7 +101,11 @@ func c12One(run *hx.Run, data []byte, o op, pi int, dbname string, maxR int64) {
 	}
 	ref := o.run(h0, 0)
 	R := p0.Reads
-	if ref.err != nil || ref.panicMsg != "" {
+	if ref.panicMsg != "" {
+		run.Violation("C12/"+o.kind+"/fault-free/"+pmKind(ref.panicMsg), fmt.Sprintf("%s on %s without any fault: %s", o.name, dbname, firstLines(ref.panicMsg, 2)), nil)
+		return
+	}
+	if ref.err != nil {
 		run.Count("ops_failing_without_fault", 1)
 		run.See("fault_free_failure", o.name+": "+fmt.Sprint(ref.err))
 		return
